@@ -93,7 +93,11 @@ def classify(rc, out, err):
         return "ub", "Miri: %s" % (m.group(1)[:300] if m else "data race")
     if "panicked at" in text:
         m = re.search(r"panicked at ([^\n]*\n[^\n]*)", text)
-        return "panic", m.group(1)[:300] if m else ""
+        detail = m.group(1)[:300] if m else ""
+        # a tripped bounds check inside the index / kernel sources is an out-of-bounds access that was attempted
+        if re.search(r"index out of bounds|out of range for slice|range (start|end) index|slice index starts", detail) and re.search(r"(simd|ann_backend|hnsw_index)\.rs", detail):
+            return "oob_panic", detail
+        return "panic", detail
     return "error", text[-800:]
 
 
@@ -179,6 +183,7 @@ def run(pid, tier, seed, opts):
         results.append((mode, k, ms, start, cnt, p.returncode, so, se))
 
     rows = 0
+    harness_errors = []
     counters = {}
     dims_by_kernel = {}
     notes = []
@@ -205,15 +210,18 @@ def run(pid, tier, seed, opts):
         elif verdict == "unsupported":
             not_run[label] = detail
             notes.append("row %s not run: Miri does not support %s" % (label, detail))
-        elif verdict in ("ub", "mismatch"):
+        elif verdict in ("ub", "mismatch", "oob_panic"):
             row = s.get("last_row")
-            clause = "undefined_memory_access" if verdict == "ub" else "result_differs_from_brute_force_reference"
+            clause = {"ub": "undefined_memory_access", "mismatch": "result_differs_from_brute_force_reference", "oob_panic": "out_of_bounds_access_stopped_by_bounds_check"}[verdict]
             violations.append({"property": pid, "clause": clause, "facts": {"executor": mode, "kernel": label, "site": site_fact(detail)}, "message": "%s row %s (workload seed %d, schedule seed %d): %s" % (label, row, seed, ms, detail),
                                "replay": {"check": pid, "mode": mode, "kernel": k, "seed": seed, "row": row, "miri_seed": ms, "big": mode == "asan"}})
         else:
-            print("HARNESS-ERROR: %s worker (kernel %s, start %d) ended with %s: %s" % (mode, k, start, verdict, detail[-1500:]))
-            return 2
+            harness_errors.append("%s worker (kernel %s, start %d) ended with %s: %s" % (mode, k, start, verdict, detail[-1500:]))
 
+    if harness_errors and not violations:
+        for e in harness_errors[:4]:
+            print("HARNESS-ERROR:", e)
+        return 2
     head = subprocess.run(["git", "-C", vbuild.repo_root(), "rev-parse", "HEAD"], capture_output=True, text=True).stdout.strip()
     vio_lines = []
     known_hit = {}
@@ -281,7 +289,7 @@ def replay(pid, path):
         print("HARNESS-ERROR: replay is not deterministic:", verdicts)
         return 2
     v = verdicts[0] if verdicts[0][0] != "ok" else verdicts[1]
-    if v[0] in ("ub", "mismatch"):
+    if v[0] in ("ub", "mismatch", "oob_panic"):
         print("VIOLATION property=%s replay=%s" % (pid, path))
         print("  " + v[1][:700])
         return 1
